@@ -14,6 +14,8 @@ pub mod c10;
 pub mod c11;
 pub mod c12;
 pub mod c13;
+pub mod c14;
+pub mod c15;
 
 pub fn get(id: &str) -> Option<PropertyDef> {
     match id {
@@ -30,6 +32,8 @@ pub fn get(id: &str) -> Option<PropertyDef> {
         "C11" => Some(c11::def()),
         "C12" => Some(c12::def()),
         "C13" => Some(c13::def()),
+        "C14" => Some(c14::def()),
+        "C15" => Some(c15::def()),
         _ => None,
     }
 }
